@@ -724,8 +724,12 @@ def tmpl_label_table(rng):
             prog.append((0, 1, pr, h))
         prog += [(0, 1, 65, None), (1, 1, 1, None)] if rng.random() < 0.5 else []
         prog += read_fragment(rng)
-        for _ in range(rng.randint(1, 3)):
-            pr, h = rng.choice(keys)
+        targets = [rng.choice(keys) for _ in range(rng.randint(1, 3))]
+        if rng.random() < 0.6:
+            # one data-driven jump per registered label, in random order: whichever label the translation got wrong is used
+            targets = list(keys)
+            rng.shuffle(targets)
+        for pr, h in targets:
             prog.append((0, 1, pr, ('?', None, rng.choice([('?', h, None), ('?', None, h), ('!', h, None), h]))))
             if rng.random() < 0.5:
                 prog += [(0, 1, 67, None), (1, 1, 1, None)]
